@@ -104,7 +104,7 @@ class Ctx:
         if key in self.bins:
             return self.bins[key]
         out = os.path.join(self.work, cmd + ("-race" if race else ""))
-        args = ["go", "build", "-tags", tags, "-o", out]
+        args = ["go", "build", "-trimpath", "-tags", tags, "-o", out]   # -trimpath: identical sources in another directory hit the build cache
         if race:
             args.append("-race")
         args.append("./cmd/" + cmd)
